@@ -794,8 +794,14 @@ impl Indexable for ast::InnerValue {
         let mut lhs_typ = self.simple_value()?.index(ctx)?;
         for suffix in self.suffixes() {
             lhs_typ = match suffix {
-                ast::ValueSuffix::RangeSuffix(_) => match lhs_typ {
-                    Type::Bits(_) => Some(Type::Bit),
+                ast::ValueSuffix::RangeSuffix(range_suffix) => match lhs_typ {
+                    // `b{0}` is a bit, `b{3...0}` are four bits
+                    Type::Bits(_) => Some(
+                        range_suffix
+                            .range_list()
+                            .and_then(|range_list| utils::range_list_width(&range_list))
+                            .map_or(Type::Unknown, utils::bits_typ),
+                    ),
                     _ => None,
                 },
                 ast::ValueSuffix::SliceSuffix(slice_suffix) => {
@@ -983,6 +989,7 @@ impl Indexable for ast::Integer {
 mod utils {
     use super::context::IndexCtx;
     use crate::file_system::FileRange;
+    use crate::symbol_map::typ::Type;
     use ecow::EcoString;
     use syntax::ast;
 
@@ -993,5 +1000,30 @@ mod utils {
         let name = identifier.value()?;
         let loc = FileRange::new(ctx.current_file_id(), identifier.range()?);
         Some((name, loc))
+    }
+
+    /// The number of bits selected by a range list such as `{7, 3-0}` or `{15...8}`.
+    /// `None` if a bound is missing or out of range.
+    pub(super) fn range_list_width(range_list: &ast::RangeList) -> Option<usize> {
+        let mut width: usize = 0;
+        for piece in range_list.pieces() {
+            let start = piece.start()?.value()?.unsigned_abs();
+            let len = match piece.end() {
+                // the end of `3-0` is lexed as the negative integer `-0`
+                Some(end) => start.abs_diff(end.value()?.unsigned_abs()).checked_add(1)?,
+                None => 1,
+            };
+            width = width.checked_add(len.try_into().ok()?)?;
+        }
+        Some(width)
+    }
+
+    /// The type of `width` selected bits.
+    pub(super) fn bits_typ(width: usize) -> Type {
+        if width == 1 {
+            Type::Bit
+        } else {
+            Type::Bits(width)
+        }
     }
 }
